@@ -182,7 +182,7 @@ def _extract_f(outdir):
     """fixtures crate (self-test of the zero-expected-count scans): monomorphic walk from its roots + generic facts"""
     if not os.path.isdir(FIXTURES):
         return
-    target = os.path.join(WORK, 'tf')
+    target = os.path.join(WORK, 'tm')
     fxdir = _crate_dir(FIXTURES, 'fixtures')
     shutil.copyfile(os.path.join(REPO, 'Cargo.lock'), os.path.join(fxdir, 'Cargo.lock'))
     fdir = os.path.join(outdir, 'fx')
@@ -202,7 +202,7 @@ def _extract_f(outdir):
 
 def _extract_v(outdir):
     """the crate's forwarding `impl voprf::Group for opaque_ke::Ristretto255`, walked from a root of its own (engine/harness/vgroup)"""
-    target = os.path.join(WORK, 'tv')
+    target = os.path.join(WORK, 'tm')
     vdir = _crate_dir(VGROUP, 'vgroup')
     shutil.copyfile(os.path.join(REPO, 'Cargo.lock'), os.path.join(vdir, 'Cargo.lock'))
     odir = os.path.join(outdir, 'vg')
